@@ -102,13 +102,21 @@ Proof.
   rewrite H in Hc. injection Hc as <-. apply snapshot_shape, K, eq_refl.
 Qed.
 
-(* the full-strength table statement (no option outside key/dir/post_load changes diagnostics) is refuted by the
-   classification itself: attributes of class `finding` exist (each confirmed on the real code by the toggle matrix) *)
-Lemma no_stale_options_refuted : ~ no_stale_options.
+(* the table half of the full statement is DECIDED by the classification: it holds iff no attribute is classified
+   `finding` (each finding is confirmed on the real code by the toggle matrix) *)
+Lemma forallb_false_ex : forall (f : string -> bool) l, forallb f l = false -> exists x, In x l /\ f x = false.
 Proof.
-  intros H. destruct (H "warn_redundant_casts") as [c [Hc Hn]].
-  - apply mem_In. vm_compute. reflexivity.
-  - vm_compute in Hc. injection Hc as <-. apply Hn. reflexivity.
+  induction l as [|x r IH]; simpl; intros H; [discriminate|].
+  apply andb_false_iff in H as [H|H]; [exists x; auto|]. destruct (IH H) as [y [Hy Fy]]. exists y; auto.
+Qed.
+
+Lemma no_stale_options_decided : if no_finding_b then no_stale_options else ~ no_stale_options.
+Proof.
+  destruct no_finding_b eqn:E; unfold no_finding_b in E.
+  - intros a Ha. pose proof (proj1 (forallb_forall _ _) E a Ha) as C. simpl in C.
+    destruct (class_of a) as [c|]; [|discriminate]. exists c; split; auto. intros ->. discriminate.
+  - intros H. apply forallb_false_ex in E as [a [Ha Fa]]. destruct (H a Ha) as [c [Hc Hn]].
+    rewrite Hc in Fa. destruct c; try discriminate. apply Hn; reflexivity.
 Qed.
 
 (* model-level witness: an analysis that reads an option outside the key gives a stale warm result *)
@@ -118,7 +126,7 @@ Lemma stale_outside_key_refuted :
     ~ In probe ("platform" :: K) /\
     probe_output (probe_run K probe (st_cache (probe_run K probe [] o1)) o2) <> probe_output (probe_run K probe [] o2).
 Proof.
-  exists "warn_redundant_casts", [], [("warn_redundant_casts", "True")]. split.
+  exists "<an option outside the key>", [], [("<an option outside the key>", "True")]. split.
   - apply nmem_nIn. vm_compute. reflexivity.
   - vm_compute. discriminate.
 Qed.
